@@ -16,6 +16,7 @@ package webrtc
 import (
 	"encoding/json"
 	"fmt"
+	"reflect"
 	"sort"
 	"strconv"
 	"strings"
@@ -994,7 +995,13 @@ func (rp *vshReplayer) canon() string {
 			continue
 		}
 		pc := s.pc
-		fmt.Fprintf(&b, "%s{%s gm=%d dc=%v", n, pc.SignalingState(), pc.greaterMid, s.dcCreated > 0)
+		// the mid counter is read by name (reflection): a tree that derives it per call has no such field, and
+		// then it is no state either
+		gm := int64(-999)
+		if f := reflect.ValueOf(pc).Elem().FieldByName("greaterMid"); f.IsValid() && f.CanInt() {
+			gm = f.Int()
+		}
+		fmt.Fprintf(&b, "%s{%s gm=%d dc=%v", n, pc.SignalingState(), gm, s.dcCreated > 0)
 		pc.api.mediaEngine.mu.RLock()
 		fmt.Fprintf(&b, " neg=%v/%v", pc.api.mediaEngine.negotiatedAudio, pc.api.mediaEngine.negotiatedVideo)
 		pc.api.mediaEngine.mu.RUnlock()
